@@ -7,24 +7,17 @@ LEVEL = "proof"
 
 # crashes that belong to a defect repaired on another branch (DESIGN.md §4: "handled elsewhere"); they are
 # printed and recorded, and stop being tolerated as soon as the entry is removed
-HANDLED_ELSEWHERE = [
-    {"id": "D10", "re": r"src/hb/tag\.rs:\d+ .*(byte index|char boundary|is not a char)",
-     "what": "tag.rs lang_cmp slices a str at byte offsets of the other string (non-ASCII language tag); fix on the C18/tag branch"},
-]
+HANDLED_ELSEWHERE = []     # D10 (tag.rs lang_cmp) was the only entry; it is repaired on main
 
-# crash sites already written up as findings of this property (final report of the C01 core). Nothing is suppressed:
-# the list only groups them and orders the output so that a NEW site is always printed before these (the framework
-# prints at most five replays per run).
+# crash families written up as findings of this property.  Nothing is suppressed here: the list only groups the sites of a
+# family under one replay whose key "signature" is the family id (known_findings.json matches on that key) and orders the
+# output so that a NEW site is always reported before these.  F-coverage-unwrap and F-morx-lig were repaired on main
+# (8e4cc4f, 457582f): their minimal inputs stay in seed_lines() and must pass.
 REPORTED = [
-    ("F-coverage-unwrap", r"panic src/hb/(ot_layout_gsubgpos\.rs|ot/layout/GSUB/reverse_chain_single_subst\.rs):\d+ called `Option::unwrap\(\)`",
-     "Context / ChainContext format 3 and ReverseChainSingleSubst: `coverages.get(index).unwrap()` on a malformed "
-     "(null / out-of-range) coverage offset"),
     ("F-attach-i16", r"panic src/hb/ot_layout_gpos_table\.rs:\d+ assertion failed: j < i",
      "attach_chain is i16: a mark more than 32767 glyphs after its base wraps and trips assert!(j < i)"),
     ("F-nfvs", r"panic src/hb/buffer\.rs:\d+ assertion failed: self\.glyph_id <= u32::from\(u16::MAX\)",
      "debug_assert in as_glyph(): set_not_found_variation_selector_glyph(> 65535) then serialize (checked build only)"),
-    ("F-morx-lig", r"panic src/hb/aat_layout_morx_table\.rs:8\d\d attempt to add with overflow",
-     "morx ligature subtable: `ligature_idx += component` is u16 (HarfBuzz: unsigned int); traps under overflow checks"),
     ("F-ttf-parser", r"panic ttf-parser-[0-9.]+/src/",
      "dependency ttf-parser: debug assertions / arithmetic overflow on malformed tables or non-finite variation values "
      "(checked build only)"),
@@ -387,6 +380,10 @@ class Judge:
 
 
 RULES = {
+    "synthetic": "adversarial fonts from tools/fontbuild.py (Extension lookup mixing reverse and forward subtables, self / mutually "
+                 "recursive context lookups, insertion bombs, 70 nested lookups, cursive on every glyph, all marks on one base, "
+                 "morx don't-advance loop and insertion bomb) x short and long private-use texts, 2 configurations, both builds; "
+                 "a request that does not answer within 40 s (release) / 120 s (checked) is a hang",
     "seeds": "permanent inputs of the property's rationale (200k Arabic letters on the Nastaliq font, base + 70k marks, 281-char "
              "Devanagari conjunct, aalt=70000 with a feat table, 4-letter ASCII on the TestMORX fonts, non-ASCII language tags), "
              "both builds; non-trivial = output has glyphs",
@@ -413,6 +410,91 @@ def run_both(judge, stream, lines, timeout, builds=("release", "checked"), nproc
 
 def spec(path, idx=0, muts=()):
     return "@" + path + "@" + str(idx) + "".join("@" + m for m in muts)
+
+
+def synthetic_recipes():
+    """adversarial fonts built by tools/fontbuild.py (private-use alphabet U+E000.. -> glyph 1..): name -> (recipe, [texts])"""
+    P = 0xE000
+    multi8 = {"type": 2, "subtables": [{"coverage": [1], "sequences": [[1] * 8]}]}
+    R = {}
+    # Extension lookup mixing a reverse-chaining subtable with a forward one: the forward driver never advanced (hang)
+    R["ext-mixed-reverse"] = ({"num_glyphs": 3, "cmap": "pua", "gsub": {"features": [{"tag": "ccmp", "lookups": [0]}], "lookups": [
+        {"type": 7, "subtables": [{"ext_type": 8, "extension": {"coverage": [1], "backtrack": [], "lookahead": [], "subst": [1]}},
+                                  {"ext_type": 1, "extension": {"format": 1, "coverage": [2], "delta": 0}}]}]}},
+        [[P], [P, P + 1, P], [(P, 1000)]])
+    R["ext-mixed-reverse-2"] = ({"num_glyphs": 3, "cmap": "pua", "gsub": {"features": [{"tag": "ccmp", "lookups": [0]}], "lookups": [
+        {"type": 7, "subtables": [{"ext_type": 1, "extension": {"format": 1, "coverage": [2], "delta": 0}},
+                                  {"ext_type": 8, "extension": {"coverage": [1], "backtrack": [[2]], "lookahead": [], "subst": [2]}}]}]}},
+        [[P], [P + 1, P, P + 1, P]])
+    # a context lookup that calls itself
+    R["self-recursive"] = ({"num_glyphs": 4, "cmap": "pua", "gsub": {"features": [{"tag": "ccmp", "lookups": [0]}], "lookups": [
+        {"type": 5, "subtables": [{"format": 3, "coverages": [[1]], "lookups": [(0, 0)]}]}]}},
+        [[P], [(P, 1000)], [(P, 70000)]])
+    # mutual recursion through chain context
+    R["mutual-recursion"] = ({"num_glyphs": 4, "cmap": "pua", "gsub": {"features": [{"tag": "ccmp", "lookups": [0]}], "lookups": [
+        {"type": 6, "subtables": [{"format": 3, "backtrack": [], "coverages": [[1], [1]], "lookahead": [], "lookups": [(0, 1), (1, 1)]}]},
+        {"type": 5, "subtables": [{"format": 3, "coverages": [[1]], "lookups": [(0, 0)]}]}]}},
+        [[P, P], [(P, 3000)]])
+    # insertion bomb: 1 -> 1 x 8, re-applied recursively and by eight features
+    R["insertion-bomb"] = ({"num_glyphs": 4, "cmap": "pua", "gsub": {
+        "features": [{"tag": t, "lookups": [0]} for t in ("ccmp", "liga", "calt", "clig", "rlig", "locl", "rclt", "kern")],
+        "lookups": [{"type": 5, "subtables": [{"format": 3, "coverages": [[1]], "lookups": [(0, 1), (0, 0), (1, 0), (7, 1)]}]}, multi8]}},
+        [[P], [(P, 100)], [(P, 5000)], [(P, 65536)]])
+    # 70 nested context lookups (nesting budget is 64), the last one substitutes
+    n = 70
+    R["nesting-70"] = ({"num_glyphs": 4, "cmap": "pua", "gsub": {"features": [{"tag": "ccmp", "lookups": [0]}], "lookups":
+        [{"type": 5, "subtables": [{"format": 3, "coverages": [[1]], "lookups": [(0, i + 1)]}]} for i in range(n)]
+        + [{"type": 1, "subtables": [{"format": 2, "coverage": [1], "subst": [2]}]}]}},
+        [[P], [(P, 2000)]])
+    # GPOS: cursive attachment on every glyph and mark-to-base with every mark on one base
+    R["cursive-all"] = ({"num_glyphs": 4, "cmap": "pua", "gpos": {"features": [{"tag": "curs", "lookups": [0]}], "lookups": [
+        {"type": 3, "flag": 1, "subtables": [{"coverage": [1, 2], "entry_exit": [((0, 10), (500, 20)), ((0, 30), (500, 40))]}]}]}},
+        [[(P, 70000)], [(P, 40000), (P + 1, 40000)]])
+    R["marks-on-one-base"] = ({"num_glyphs": 4, "cmap": "pua", "gdef": {"classes": {1: 1, 2: 3, 3: 3}}, "gpos": {
+        "features": [{"tag": "mark", "lookups": [0]}], "lookups": [
+            {"type": 4, "subtables": [{"mark_coverage": [2, 3], "base_coverage": [1], "class_count": 1,
+                                       "marks": [(0, (0, 0)), (0, (10, 10))], "bases": [[(100, 500)]]}]}]}},
+        [[P, (P + 1, 100)], [P, (P + 1, 32767)]])
+    # morx: don't-advance loops and an insertion bomb (budget: max_ops / max_len)
+    R["morx-dont-advance"] = ({"num_glyphs": 4, "cmap": "pua", "morx": {"version": 2, "chains": [{"default_flags": 1, "features": [],
+        "subtables": [{"kind": "rearrangement", "classes": {1: 4}, "states": [[0, 0, 0, 0, 1], [0, 0, 0, 0, 1]],
+                       "entries": [{"new_state": 0, "flags": 0}, {"new_state": 0, "flags": 0x4000 | 0x8000 | 1}]}]}]}},
+        [[P], [(P, 5000)]])
+    R["morx-insertion-bomb"] = ({"num_glyphs": 4, "cmap": "pua", "morx": {"version": 2, "chains": [{"default_flags": 1, "features": [],
+        "subtables": [{"kind": "insertion", "classes": {1: 4}, "states": [[0, 0, 0, 0, 1], [0, 0, 0, 0, 1]],
+                       "entries": [{"new_state": 0, "flags": 0, "current_insert_index": 0xFFFF, "marked_insert_index": 0xFFFF},
+                                   {"new_state": 0, "flags": 0x4000 | 0x0800 | 0x03E0, "current_insert_index": 0, "marked_insert_index": 0xFFFF}],
+                       "insert_glyphs": [1] * 31}]}]}},
+        [[P], [(P, 600)]])
+    return R
+
+
+def synthetic_lines():
+    import fontbuild
+    L = []
+    for name, (recipe, texts) in sorted(synthetic_recipes().items()):
+        try:
+            data = fontbuild.build(recipe)
+        except Exception as e:          # a recipe the builder cannot serialise is a harness problem, not a finding
+            L.append(f"c01 @/nonexistent/{name}:{type(e).__name__}@0 - - - 0 0 - - - 61")
+            continue
+        p = os.path.join(cache_dir(), f"syn-{name}.ttf")
+        if not os.path.exists(p) or open(p, "rb").read() != data:
+            open(p, "wb").write(data)
+        for t in texts:
+            for cfg in ("- - - 0 0 - - -", "r - - 3 1 - - -"):
+                L.append(f"c01 {spec(p)} {cfg} {rle(t)} ser=1")
+    return L
+
+
+def run_synthetic(judge, timeout):
+    """every line in its own process group with a short wall limit: these inputs are tiny, anything above it is a hang"""
+    lines = synthetic_lines()
+    for b in ("release", "checked"):
+        exe = vlib.build_harness(b)
+        outs = vlib.run_groups(exe, [[ln] for ln in lines], timeout=timeout * (1 if b == "release" else 3), flush=True)
+        for ln, o in zip(lines, outs):
+            judge.see("synthetic", b, ln, o[0] if o else "timeout")
 
 
 def seed_lines():
@@ -612,6 +694,7 @@ def run(ctx):
     ctx.correspond("budget-walks", lines=budget_walks(ctx.rng("walks"), ctx.budget(10000, 200000)), classify=classify, canon=canon)
     bound_search(ctx, shim, ctx.rng("bound"), ctx.budget(10000, 200000))
     j = Judge(ctx)
+    run_synthetic(j, timeout=40)
     run_both(j, "seeds", seed_lines(), timeout=ctx.budget(900, 1800), nproc=8)
     run_both(j, "config", config_lines(ctx.rng("config"), ctx.budget(2128, 2128 * 4)), timeout=900)
     run_both(j, "mutants", mutant_lines(ctx.rng("mutants"), ctx.budget(120000, 1000000)), timeout=900)
